@@ -17,6 +17,19 @@ CHECKS = {
         note="Trusted: Coq kernel + vm_compute, translate.py, Py/Prelude.v, float(str)/str(value) oracles; "
              "Date/Time/DateTime not modelled (library strptime/isoformat).",
         design="4 C10"),
+    "C04": dict(
+        technique="Coq refinement proof impl-model = spec-model + differential correspondence vs real engine",
+        text="Theorems (all schemas, variable definitions, raw JSON, fuel): the implementation model of "
+             "coerce_variables (coercer chains folded from the peeled wrapper list, accumulator merge loops) "
+             "EQUALS the specification model CoerceVariableValues (recursion on the type, declarative error "
+             "collection); errors sound+complete per offending variable; value xor errors; extra variables "
+             "ignored; absent stays absent; single values wrapped at every list level. The hand-written impl "
+             "model is tied to /repo by running generated (types x defaults x JSON values x presence) requests "
+             "through the real engine and comparing info.variable_values / error attribution inside Coq with "
+             "both models; leaves are the scalar definitions regenerated from source.",
+        note="Trusted: Coq kernel, correspondence harness (generators, printer), parser stand-in, translator for "
+             "scalar leaves; directive hooks absent from this model (C13); custom scalars are oracle triples.",
+        design="4 C04"),
 }
 
 NOT_YET = {
